@@ -579,6 +579,32 @@ pub struct Sources {
   pub functions: Vec<Function>,
 }
 
+/// Writes a string literal as the body of a template literal. The escape sequences of the source
+/// language are a subset of JavaScript's and are left for JavaScript to resolve. What would end the
+/// literal, start an interpolation, be normalized (a raw carriage return) or be read as an octal
+/// escape (`\0` before a digit) is spelled differently.
+fn write_template_literal_body(collector: &mut String, s: &str) {
+  let mut chars = s.chars().peekable();
+  while let Some(c) = chars.next() {
+    match c {
+      '`' => collector.push_str("\\`"),
+      '\r' => collector.push_str("\\r"),
+      '$' if chars.peek() == Some(&'{') => collector.push_str("\\$"),
+      '\\' => {
+        collector.push('\\');
+        if let Some(escaped) = chars.next() {
+          if escaped == '0' && chars.peek().is_some_and(|d| d.is_ascii_digit()) {
+            collector.push_str("x00");
+          } else {
+            collector.push(escaped);
+          }
+        }
+      }
+      _ => collector.push(c),
+    }
+  }
+}
+
 pub fn ts_prolog() -> String {
   let heap = &Heap::new();
   let table = &SymbolTable::new();
@@ -674,7 +700,7 @@ impl Sources {
       collector.push_str("const GLOBAL_STRING_");
       collector.push_str(&i.to_string());
       collector.push_str(": _Str = [0, `");
-      collector.push_str(s.as_str(heap));
+      write_template_literal_body(&mut collector, s.as_str(heap));
       collector.push_str("` as unknown as number];\n");
       str_lookup_table.insert(*s, i);
     }
